@@ -107,7 +107,7 @@ fn lu_stats(a: &[Vec<f64>]) -> (usize, f64) {
 }
 
 /// 1-norm condition number of a square matrix by explicit Gauss-Jordan inversion (sizes <= 12)
-fn cond1(a: &[Vec<f64>]) -> f64 {
+pub fn cond1(a: &[Vec<f64>]) -> f64 {
     let n = a.len();
     let mut m: Vec<Vec<f64>> = a.iter().enumerate().map(|(i, r)| { let mut v = r.clone(); v.extend((0..n).map(|j| if i == j { 1.0 } else { 0.0 })); v }).collect();
     for j in 0..n {
